@@ -37,26 +37,29 @@ def run(res, replay=None):
         lmax = max(tol["L"][:dim])
         klass = T.known_class(inp)
         for j, f in enumerate(vor["faces"]):
+            if not (f["area"] >= -tol["area_tol"]) or any(x != x for x in f["centroid"]):
+                res.violation("C04:negative-area" + geo.mismatch_class(rec), f"face {j} (left {f['left']}, right {f['right']}) has area {f['area']} / centroid {f['centroid']}", dict(ctx, face=j))
+                break
             n = f["normal"]
             g = gens[f["left"]]
             fctx = dict(ctx, face=j, left=f["left"], right=f["right"], shift=f["shift"])
             if abs(math.sqrt(dot(n, n)) - 1.0) > 1e-12:
-                res.violation("C04:normal-not-unit", f"face {j}: |normal| = {math.sqrt(dot(n, n))}", fctx)
+                res.violation("C04:normal-not-unit" + geo.mismatch_class(rec), f"face {j}: |normal| = {math.sqrt(dot(n, n))}", fctx)
                 break
             if not geo.dim_valid(dim, n):
-                res.violation("C04:normal-outside-subspace", f"face {j}: normal {n} leaves the active subspace", fctx)
+                res.violation("C04:normal-outside-subspace" + geo.mismatch_class(rec), f"face {j}: normal {n} leaves the active subspace", fctx)
                 break
             if f["right"] is not None:
                 r = [gens[f["right"]][k] + (f["shift"][k] if f["shift"] is not None else 0.0) for k in range(3)]
                 d = [r[k] - g[k] for k in range(3)]
                 dn = math.sqrt(dot(d, d))
                 if not (dot(n, d) > 0.999 * dn):
-                    res.violation("C04:normal-direction", f"face {j} (left {f['left']}, right {f['right']}, shift {f['shift']}): normal {n} does not point from the left "
+                    res.violation("C04:normal-direction" + geo.mismatch_class(rec), f"face {j} (left {f['left']}, right {f['right']}, shift {f['shift']}): normal {n} does not point from the left "
                                   f"generator {g} towards the right generator {r} (cos = {dot(n, d) / dn:.6f})", fctx)
                     break
                 mid = [0.5 * (g[k] + r[k]) for k in range(3)]
                 if f["area"] > tol["area_min"] + tol["area_tol"] and abs(dot(n, [f["centroid"][k] - mid[k] for k in range(3)])) > max(100 * max(tol["eps"][:dim]), 10 * tol["rel"] * lmax):
-                    res.violation("C04:centroid-off-plane", f"face {j}: centroid {f['centroid']} is off the bisector plane by {dot(n, [f['centroid'][k] - mid[k] for k in range(3)])}", fctx)
+                    res.violation("C04:centroid-off-plane" + geo.mismatch_class(rec), f"face {j}: centroid {f['centroid']} is off the bisector plane by {dot(n, [f['centroid'][k] - mid[k] for k in range(3)])}", fctx)
                     break
             else:
                 # boundary face: outward axis direction, centroid on the wall
@@ -66,12 +69,14 @@ def run(res, replay=None):
                 # outward through the lower wall is -axis, through the upper wall +axis
                 cen_side = f["centroid"][ax] - g[ax]
                 if not outward_ok or (f["area"] > tol["area_min"] + tol["area_tol"] and cen_side * n[ax] < -100 * tol["eps"][ax]):
-                    res.violation("C04:normal-direction", f"boundary face {j} of cell {f['left']}: normal {n} does not point outward through the wall (centroid {f['centroid']}, generator {g})", fctx)
+                    res.violation("C04:normal-direction" + geo.mismatch_class(rec), f"boundary face {j} of cell {f['left']}: normal {n} does not point outward through the wall (centroid {f['centroid']}, generator {g})", fctx)
                     break
                 if f["area"] > tol["area_min"] + tol["area_tol"] and abs(f["centroid"][ax] - wall) > 100 * tol["eps"][ax]:
-                    res.violation("C04:centroid-off-plane", f"boundary face {j}: centroid {f['centroid']} not on the wall {wall} of axis {ax}", fctx)
+                    res.violation("C04:centroid-off-plane" + geo.mismatch_class(rec), f"boundary face {j}: centroid {f['centroid']} not on the wall {wall} of axis {ax}", fctx)
                     break
-        # closed surfaces / divergence theorem per constructed cell
+        # closed surfaces / divergence theorem per constructed cell, on the cell's own face integrals
+        # (area, centroid as AreaCentroidIntegral reports them for this cell; outward normal = - plane normal).
+        # The compact face list mixes faces computed from either side; that they agree is C03.
         n_cells = len(vor["cells"])
         for c in range(n_cells):
             if inp.get("mask") is not None and not inp["mask"][c]:
@@ -79,29 +84,28 @@ def run(res, replay=None):
             cell = vor["cells"][c]
             g = gens[c]
             on_wall = geo.walls_of_generator(rec, c)
+            iv = geo.impl_cell_view(rec, c)
+            if iv is None or not iv["faces_mapped"]:
+                continue
             tot = [0.0, 0.0, 0.0]
             div = 0.0
             asum = 0.0
-            for i in cell["face_indices"]:
-                f = vor["faces"][i]
-                sgn = 1.0 if f["left"] == c else -1.0
-                nn = [sgn * x for x in f["normal"]]
-                cen = f["centroid"]
-                if f["left"] != c:
-                    pass  # unshifted: same centroid
+            for key, f in iv["faces"].items():
+                npl = iv["planes"][f["plane"]]["n"]
+                nl = math.sqrt(dot(npl, npl))
+                nn = [-x / nl for x in npl]
                 for k in range(3):
                     tot[k] += f["area"] * nn[k]
-                div += f["area"] * dot(nn, [cen[k] - g[k] for k in range(3)])
+                div += f["area"] * dot(nn, [f["centroid"][k] - g[k] for k in range(3)])
                 asum += f["area"]
             res.nontriv((k_in, c))
             cctx = dict(ctx, cell=c)
-            sig_extra = ":K1" if on_wall else ""
             if max(abs(tot[k]) for k in range(dim)) > 10 * tol["area_tol"] + 1e-12 * asum:
-                res.violation("wall-face-of-on-wall-generator" if on_wall else "C04:not-closed",
+                res.violation("wall-face-of-on-wall-generator" if on_wall else "C04:not-closed" + geo.mismatch_class(rec),
                               f"cell {c}: sum of area * outward normal = {tot[:dim]} (total area {asum})", cctx)
                 continue
             if abs(div / dim - cell["volume"]) > 10 * tol["vol_tol"] + 1e-12 * cell["volume"]:
-                res.violation("wall-face-of-on-wall-generator" if on_wall else "C04:divergence",
+                res.violation("wall-face-of-on-wall-generator" if on_wall else "C04:divergence" + geo.mismatch_class(rec),
                               f"cell {c}: (1/{dim}) sum area * n . (centroid - generator) = {div / dim} but volume = {cell['volume']}", cctx)
         if k_in < 1:
             res.sample({"input": T.inp_json(inp), "faces": len(vor["faces"])})
